@@ -113,10 +113,11 @@ def discharge(ob: Obligation, use_cvc5: bool = True, check_vacuity: bool = True)
         s.add(a)
     vac = None
     if check_vacuity:
-        s.push()
-        r0 = s.check()
-        vac = (r0 == z3.unsat)
-        s.pop()
+        sv = z3.Solver()
+        sv.set('timeout', 1500)
+        for a in ob.assumptions:
+            sv.add(a)
+        vac = (sv.check() == z3.unsat)
     s.add(z3.Not(ob.goal))
     r = s.check()
     ms = (time.time() - t0) * 1000
